@@ -241,6 +241,13 @@ func shortFn(fn string) string {
 	return fn
 }
 
+// panicWithStack carries a panic from the watchdog's worker goroutine to RunOnce together with the stack
+// it was raised with (the classification library / harness looks at where the panic came from).
+type panicWithStack struct {
+	v  any
+	st string
+}
+
 func panicClass(msg string) string {
 	if len(msg) > 60 {
 		msg = msg[:60]
@@ -265,6 +272,10 @@ func (s *Scenario) RunOnce(prefix []int) (x *X, r Result) {
 					return
 				}
 				st := string(debug.Stack())
+				if pw, ok := e.(panicWithStack); ok {
+					// raised on the watchdog's worker goroutine: judge the stack it was raised with
+					e, st = pw.v, pw.st
+				}
 				if fn := panicOrigin(st); strings.HasPrefix(fn, libraryPrefix) && !strings.Contains(fn, "/verifshim/") && !strings.Contains(fn, ".Verif") {
 					// the panic was raised by the library under test, on the harness's goroutine, inside
 					// a public call the scenario did not wrap: that is the library's failure, not ours
@@ -286,6 +297,9 @@ func (s *Scenario) RunOnce(prefix []int) (x *X, r Result) {
 		go func() {
 			defer func() {
 				if e := recover(); e != nil {
+					if _, ok := e.(ErrReplayDiverged); !ok {
+						e = panicWithStack{e, string(debug.Stack())}
+					}
 					ch <- res{p: e}
 				}
 			}()
